@@ -280,3 +280,18 @@ EXTRA = {
     "teardown_c": dict(cfg=dict(K=16, cancelable=True), behaviours=[_teardown("early", b) for b in _BEFORE] + [_teardown("late", b) for b in _BEFORE]),
     "teardown_k1": dict(cfg=dict(K=1), behaviours=[_teardown("early", b) for b in _BEFORE] + [_teardown("late", b) for b in _BEFORE]),
 }
+
+# C08 churn: the same behaviours 150 times in one process; whatever the collector keeps per finished
+# trace (also outside what the statistics hook shows) makes the allocated bytes at quiescence grow.
+_LATE1 = [dict(ev="spawn", t=1), dict(_c("root", h=101, tr=1, smp=True), t=1), dict(_c("child", h=102, ps=[101], multi=False), t=1),
+          dict(_c("drop", h=101), t=1), dict(ev="push", t=1), dict(ev="cycle"),
+          dict(_c("sevent", h=102, evt=dict(name=103, props=[])), t=1), dict(_c("sprops", h=102, kvs=[[104, 104]]), t=1), dict(ev="cycle"),
+          dict(_c("drop", h=102), t=1), dict(_c("exit"), t=1), dict(ev="cycle"), dict(ev="cycle")]
+_LATE2 = [dict(ev="spawn", t=1), dict(_c("root", h=101, tr=1, smp=True), t=1), dict(_c("setlp", g=102, h=101), t=1), dict(_c("drop", h=101), t=1),
+          dict(ev="push", t=1), dict(ev="cycle"), dict(_c("levent", evt=dict(name=103, props=[])), t=1), dict(_c("lenter", l=104), t=1),
+          dict(_c("lexit", l=104), t=1), dict(_c("dropg", g=102), t=1), dict(_c("exit"), t=1), dict(ev="cycle"), dict(ev="cycle")]
+_LATE3 = [dict(ev="spawn", t=1), dict(ev="spawn", t=2), dict(_c("root", h=101, tr=1, smp=True), t=1), dict(_c("child", h=102, ps=[101], multi=False), t=1),
+          dict(_c("sevent", h=102, evt=dict(name=203, props=[])), t=2), dict(_c("drop", h=102), t=1), dict(ev="cycle"), dict(_c("cancel", h=101), t=2),
+          dict(_c("drop", h=101), t=1), dict(ev="push", t=1), dict(_c("exit"), t=1), dict(_c("exit"), t=2), dict(ev="cycle"), dict(ev="cycle")]
+EXTRA["churn_late"] = dict(cfg=dict(K=16, churn=True), repeat=150, behaviours=[dict(steps=_LATE1, prefix=True), dict(steps=_LATE2, prefix=True)])
+EXTRA["churn_mixed"] = dict(cfg=dict(K=16, churn=True), repeat=150, behaviours=[dict(steps=_LATE3, prefix=True), dict(steps=_LATE1, prefix=True)])
